@@ -1200,6 +1200,15 @@ func dkgEngine(workdir string) {
 				VerificationVector: [][]byte{other.GetPublicKey().Serialize(), other2.GetPublicKey().Serialize()}}
 			_, err := in.handler.Contribute(callerCtx(hs(f[2])), wire(req, &pb.ContributeRequest{}))
 			res = errClassH(err)
+		// hcontributev <inst> <asker id> <account>: a VALID contribution (computed by a scratch process of the asker for this
+		// account, threshold n/2+1) delivered to the instance's receiver handler under the asker's name
+		case "hcontributev":
+			switch r := c.shareOwnerHold(u64(f[1]), u64(f[2]), unhexStr(f[3]), nil); {
+			case r == "E:refused", strings.HasPrefix(r, "bad:"), strings.HasPrefix(r, "skip:"):
+				res = r
+			default:
+				res = "ok"
+			}
 		// share ownership: what does `owner` hand to caller `asker` in reply to a valid contribution?
 		case "shareowner":
 			res = c.shareOwner(u64(f[1]), u64(f[2]), unhexStr(f[3]))
